@@ -991,7 +991,7 @@ def real_run(case):
         elif k == 's':
             i = act[1]
             if i >= len(its):
-                out.append([Atom('out'), i, Atom('halted'), proto.N, []])
+                out.append([Atom('out'), i, Atom('halted'), proto.N, [], proto.N])
                 continue
             if term[i] is not None:
                 so = Atom('halted')
@@ -1010,7 +1010,7 @@ def real_run(case):
                     so = [Atom('err'), Atom(type(e).__name__)]
                     term[i] = 'err'
             after, _ = cells_now()
-            out.append([Atom('out'), i, so, wire_ctx(ctxs[i]), changed_cells(before, after)])
+            out.append([Atom('out'), i, so, wire_ctx(ctxs[i]), changed_cells(before, after), flatten_depth(its[i])])
         elif k == 'x':
             tr = b.translator or Translator()
             code = Translator.extract.__code__
@@ -1051,6 +1051,23 @@ def real_run(case):
         else:
             raise ValueError(act)
     return out
+
+
+def flatten_depth(it):
+    """len(stack) inside the suspended `_flatten` generator of an output stream (walk the filter chain
+    `_include` <- `_match` <- `_flatten` through the generators' frames); N once it has finished"""
+    g = it
+    for _ in range(8):
+        code = getattr(g, 'gi_code', None)
+        if code is None:
+            return proto.N
+        fr = g.gi_frame
+        if fr is None:
+            return proto.N
+        if code.co_name == '_flatten':
+            return len(fr.f_locals.get('stack', ()))
+        g = fr.f_locals.get('stream')
+    return proto.N
 
 
 def _stream_prepared(t):
@@ -1107,10 +1124,12 @@ def compare_model(cases, res, variant, stream='steps'):
             res.streams[stream] = res.streams.get(stream, 0) + 1
             if act[0] == 's' and isinstance(m, list) and len(m) > 2 and isinstance(m[2], list) and m[2] and m[2][0] == 'err':
                 # after an exception the context is whatever the unwinding left; compare the exception only
-                m, r = m[:3] + m[4:], r[:3] + r[4:]
+                m, r = m[:3] + m[4:5], r[:3] + r[4:5]
                 res.count('model:err:' + str(m[2][1]))
             elif act[0] == 's' and isinstance(m, list) and len(m) > 2 and m[2] == 'halted':
-                m, r = m[:3] + m[4:], r[:3] + r[4:]
+                m, r = m[:3] + m[4:5], r[:3] + r[4:5]
+            elif act[0] == 's' and isinstance(m, list) and len(m) > 2 and m[2] == 'done':
+                m, r = m[:5], r[:5]          # the finished generator has no frame to look into
             if m != r:
                 res.disagreements.append({'stream': stream, 'case': c, 'model': 'action %d %s: %s' % (n, act, trunc(m, 700)),
                                           'real': trunc(r, 700)})
